@@ -59,7 +59,8 @@ def mkOp (j : Json) : Op :=
     let fields := (arr! (fld j "fields")).map fun p => match arr! p with
       | [f, fa] => (nat! f, mkFieldAnn fa) | _ => (0, .plain .int)
     .defn (nat! (fld j "def")) { fields := fields, isLocal := bool! (fld j "local"),
-                                 bound := bool! (fld j "bound"), isFunc := bool! (fld j "func") }
+                                 bound := bool! (fld j "bound"), isFunc := bool! (fld j "func"),
+                                 base := optNat (fld j "base") }
 
 partial def outVal : Val → Json
   | .none => .null
@@ -86,7 +87,7 @@ def leafInt : Val → Option Val
 
 def handle (j : Json) : Json :=
   let cfg : Cfg := match obj? j "cfg" with
-    | some c => ⟨bool! (fld c "uniqueKeys"), bool! (fld c "resolveUnion")⟩
+    | some c => ⟨bool! (fld c "uniqueKeys"), bool! (fld c "resolveUnion"), bool! (fld c "inheritRefs")⟩
     | none => Cfg.fixed
   let fuel := match optNat (fld j "fuel") with | some n => n | none => 60
   let ops := (arr! (fld j "ops")).map mkOp
